@@ -35,7 +35,7 @@ TRUSTED = ['SQLite BLOB comparison = memcmp then length (the Bytes order) and OR
 ASSUMPTIONS = ['client ids of the logical dataset are distinct (they are dict keys / a PRIMARY KEY)',
                'shuffled pass: buffer_size >= 1 and every rng.randint(buffer_size) draw d satisfies -buffer_size <= d (NumPy: 0 <= d < buffer_size; asserted on every recorded draw)',
                'dict(examples) and assert_consistent_rows(out) inside the preprocessor __call__s are identities on the modelled family',
-               'preprocessing functions are pure (the indexed family: x+k, x*k, x+sum(id), duplicate rows, drop first row)',
+               'preprocessing functions are pure (the indexed family: x+k, x*k, x+sum(id), duplicate rows, drop first row, add a constant feature)',
                'a python set is modelled as a duplicate-free list: only membership and sorted() are ever applied to it',
                'the in-memory dict is modelled as an association list: all iteration goes through sorted(keys)']
 PARTIAL = ['next() on shuffled_clients() of an EMPTY view never returns (while True over an empty pass); not demanded by the property, not flagged']
@@ -146,7 +146,7 @@ def gen_case(rng, max_clients=6, max_ops=6):
       rng.shuffle(sub)
       ops.append(['subset', [hx(i) for i in sub]])
     elif r < 0.84:
-      kinds = ['add', 'mul', 'addid', 'tail'] + (['dup'] if ndup < 2 else [])
+      kinds = ['add', 'mul', 'addid', 'tail', 'mark'] + (['dup'] if ndup < 2 else [])
       k = rng.choice(kinds)
       ndup += k == 'dup'
       ops.append(['prec', [k, rng.randrange(-2, 4)] if k in ('add', 'mul') else [k]])
@@ -189,6 +189,7 @@ def _fixed_cases():
       [['subset', []], ['slice', None, None]],               # empty subset
       [['prec', ['add', 1]], ['prec', ['mul', 2]], ['preb', ['add', 3]], ['prec', ['dup']], ['preb', ['mul', -1]], ['prec', ['tail']]],
       [['preb', ['mul', 2]], ['prec', ['addid']], ['slice', a, None], ['prec', ['tail']], ['subset', [a, a0]], ['prec', ['dup']]],
+      [['prec', ['mark']], ['preb', ['add', 1]], ['slice', a, None]],     # a feature added at client level, seen on the empty client a\0\0 too
   ]
   for s in seqs:
     yield {**base, 'ops': s, 'mid': min(1, len(s))}
@@ -219,6 +220,8 @@ def _cfn(spec):
     return lambda cid, ex: {f: np.concatenate([v, v], axis=0) for f, v in ex.items()}
   if k == 'tail':
     return lambda cid, ex: {f: v[1:] for f, v in ex.items()}
+  if k == 'mark':   # adds a feature: visible in the feature set / dtypes even on a client without examples
+    return lambda cid, ex: {**ex, 'z': (ex['x'] * 0 + 7).astype(np.int16)}
   raise ValueError(spec)
 
 
@@ -289,6 +292,7 @@ class RecRng(np.random.RandomState):
   """RandomState recording what the model needs as its oracle: the Lehmer code of every
   shuffle(list) and the value of every scalar randint(B) draw."""
   made = []
+  max_passes = 10**9
 
   def __init__(self, seed=None):
     super().__init__(seed)
@@ -296,6 +300,9 @@ class RecRng(np.random.RandomState):
     RecRng.made.append(self)
 
   def shuffle(self, x):
+    if len(self.codes) >= RecRng.max_passes:
+      # an implementation whose passes yield nothing would spin in its `while True` for ever
+      raise RuntimeError('shuffled_clients started more passes than items were requested')
     before = list(x)
     super().shuffle(x)
     rem, code = list(before), []
@@ -326,6 +333,7 @@ def _shuffled(fd, buf, seed, count, after=None):
   implementation creates (np.random.RandomState is replaced by the recording subclass meanwhile)."""
   orig = np.random.RandomState
   RecRng.made = []
+  RecRng.max_passes = count + 2      # every pass of a non-empty view yields at least one client
   np.random.RandomState = RecRng
   try:
     out = _stream(itertools.islice(fd.shuffled_clients(buf, seed), count), after)
@@ -506,6 +514,8 @@ def _ref_c(spec, cid, x, y):
     return x + x, y + y
   if k == 'tail':
     return x[1:], y[1:]
+  if k == 'mark':
+    return x, y
   raise ValueError(spec)
 
 
@@ -547,7 +557,8 @@ def _ref_dataset(stored, cid, cc, bc):
   for g in bc:            # then batch-level functions, in registration order
     ax = _ref_b(g, ax)
   fy = [v for row in y for v in row]
-  return {'x': x, 'ax': ax, 'y': fy, 'ay': fy, 'n': len(x), 'meta': 'x:int64:;y:int32:2'}
+  meta = 'x:int64:;y:int32:2' + (';z:int16:' if any(f[0] == 'mark' for f in cc) else '')
+  return {'x': x, 'ax': ax, 'y': fy, 'ay': fy, 'n': len(x), 'meta': meta}
 
 
 def _canon(o):
@@ -664,7 +675,8 @@ def _op(o):
   if o[0] == 'prec':
     k = o[1][0]
     return 'OPreClient ' + {'add': lambda: f'(CAdd {fw.zlit(o[1][1])})', 'mul': lambda: f'(CMul {fw.zlit(o[1][1])})',
-                            'addid': lambda: 'CAddId', 'dup': lambda: 'CDup', 'tail': lambda: 'CTail'}[k]()
+                            'addid': lambda: 'CAddId', 'dup': lambda: 'CDup', 'tail': lambda: 'CTail',
+                            'mark': lambda: 'CMark'}[k]()
   k = o[1][0]
   return 'OPreBatch ' + (f'(BAdd {fw.zlit(o[1][1])})' if k == 'add' else f'(BMul {fw.zlit(o[1][1])})')
 
